@@ -1,4 +1,5 @@
 import Driver.C20
+import Driver.C01
 import Driver.C04
 import Driver.C05
 import Driver.C18
@@ -27,6 +28,7 @@ structure St where
   c07 : C07.State := {}
   c11 : C11.State := {}
   c13 : C13.State := {}
+  c01 : C01.State := {}
 
 def step (st : St) (line : String) : St × String :=
   match (line.trimAscii.toString.splitOn " ").filter (· ≠ "") with
@@ -46,6 +48,8 @@ def step (st : St) (line : String) : St × String :=
   | "c07" :: rest => let (s, o) := C07.step st.c07 rest; ({ st with c07 := s }, o)
   | "c11" :: rest => let (s, o) := C11.step st.c11 rest; ({ st with c11 := s }, o)
   | "c13" :: rest => let (s, o) := C13.step st.c13 rest; ({ st with c13 := s }, o)
+  | "c01" :: rest => let (s, o) := C01.step st.c01 "c01" rest; ({ st with c01 := s }, o)
+  | "c02" :: rest => let (s, o) := C01.step st.c01 "c02" rest; ({ st with c01 := s }, o)
   | _ => (st, "bad-op\tn/a")
 
 partial def loop (h : IO.FS.Stream) (out : IO.FS.Stream) (st : St) : IO Unit := do
